@@ -2169,6 +2169,29 @@ fn gen_c08(r: &mut Rng, seed: u64) -> Scenario {
     if r.chance(1, 6) {
         sc_force_file_fallback(&mut tags);
     }
+    if b.modules.len() > 1 && r.chance(1, 8) {
+        // a plug-in that was replaced on disk and loaded again: the old image is still mapped (its file
+        // shows as deleted), the new file of the same path got mapped directly below it
+        let mi = 1 + r.below(b.modules.len() as u64 - 1) as usize;
+        let (path, base) = (b.modules[mi].path.clone(), b.modules[mi].base);
+        let spec2 = crate::gen::lib_spec(r, false, 90 + mi);
+        let img2 = crate::elfgen::build(&spec2);
+        let base2 = base - img2.mapped_len;
+        let old_named = b.world.regions.iter().any(|g| g.name.0 == path.as_bytes() && g.start >= base && g.start < base + b.modules[mi].image.mapped_len);
+        if old_named && !b.world.regions.iter().any(|g| g.start < base && base2 - 0x1000 < g.end()) {
+            for g in b.world.regions.iter_mut() {
+                if g.name.0 == path.as_bytes() && g.start >= base {
+                    g.deleted = true;
+                }
+            }
+            let mem2 = img2.file.clone();
+            crate::gen::elf_regions(&path, base2, &img2, 9393, &mem2, &mut b.world.regions);
+            b.world.files.retain(|f| f.path.0 != path.as_bytes());
+            b.world.files.push(FileSpec { path: B::s(&path), content: B(img2.file.clone()), mode: 0o100644 });
+            b.world.regions.sort_by_key(|g| g.start);
+            push_tags(&mut tags, &["replaced-and-reloaded"]);
+        }
+    }
     if r.chance(1, 8) {
         // an enormous inaccessible reservation right behind a library (a runtime reserving address
         // space): the module's extent then exceeds what the 32-bit size field can hold. Placed last, where
